@@ -186,6 +186,22 @@ def obtain(kind, good, origin='evaluate'):
 # ---------------------------------------------------------------------------------------------
 # deep snapshot
 
+class Attrs(tuple):
+    """((attribute name, digest), ...) of one object, sorted by name."""
+
+
+def restrict(now, base):
+    """`now` without the attributes that the object at the same place in `base` did not have: an attribute ADDED to an
+    object after the baseline was taken (a lazy cache) is not a recorded statistic / an input (DESIGN 8.1); a recorded
+    attribute that disappears or changes still shows."""
+    if isinstance(now, Attrs) and isinstance(base, Attrs):
+        had = dict(base)
+        return Attrs((k, restrict(v, had[k])) for k, v in now if k in had)
+    if type(now) is tuple and type(base) is tuple and len(now) == len(base):
+        return tuple(restrict(n, b) for n, b in zip(now, base))
+    return now
+
+
 def _dig(obj, depth=0):
     """Structural digest (hashable, comparable) of anything reachable from a result."""
     from valjean.eponine.dataset import Dataset
@@ -207,7 +223,7 @@ def _dig(obj, depth=0):
         inner = (_stats(obj, depth + 1), _dig(obj.test, depth + 1))      # digested before its verdict is read
         return ('TestResult', type(obj).__name__) + inner + (bool(obj),)
     if isinstance(obj, Test):
-        return ('Test', type(obj).__name__, tuple(sorted((k, _dig(v, depth + 1)) for k, v in vars(obj).items())))
+        return ('Test', type(obj).__name__, Attrs(sorted((k, _dig(v, depth + 1)) for k, v in vars(obj).items())))
     if isinstance(obj, dict):
         return ('dict', tuple(sorted(((repr(k), _dig(v, depth + 1)) for k, v in obj.items()))))
     if isinstance(obj, (list, tuple)):
@@ -217,7 +233,7 @@ def _dig(obj, depth=0):
     if hasattr(obj, 'name') and hasattr(obj, 'value') and type(type(obj)).__name__ == 'EnumType':
         return ('enum', type(obj).__name__, obj.name)
     if hasattr(obj, '__dict__'):
-        return ('obj', type(obj).__name__, tuple(sorted((k, _dig(v, depth + 1)) for k, v in vars(obj).items())))
+        return ('obj', type(obj).__name__, Attrs(sorted((k, _dig(v, depth + 1)) for k, v in vars(obj).items())))
     return ('repr', type(obj).__name__, str(obj))
 
 
@@ -232,7 +248,7 @@ def _stats(res, depth=0):
             out.append((k, tuple(sorted((repr(s), tuple(sorted(str(n.name) for n in names))) for s, names in v.items() if names))))
         else:
             out.append((k, _dig(v, depth + 1)))
-    return tuple(out)
+    return Attrs(out)
 
 
 def structure(res):
@@ -263,10 +279,10 @@ class Tracker:
     last event of a sequence (state a custom pickling could hide)."""
 
     def __init__(self, res):
-        base = structure(res)                 # before anything, the pickling below included, has looked at the result
+        self.base = structure(res)            # before anything, the pickling below included, has looked at the result
         self.bytes0 = _pickled(res)
         self._loaded0 = None
-        self.seen = {'stats': [(base[0], SAME)], 'data': [(base[1], SAME)]}
+        self.seen = {'stats': [(self.base[0], SAME)], 'data': [(self.base[1], SAME)]}
 
     def _number(self, what, value):
         lst = self.seen[what]
@@ -276,7 +292,8 @@ class Tracker:
         lst.append(value)
         return len(lst) - 1
 
-    def _loaded(self, data):
+    @staticmethod
+    def _loaded(data):
         try:
             return structure(pickle.loads(data))
         except Exception as ex:   # pylint: disable=broad-except
@@ -291,11 +308,13 @@ class Tracker:
         if same_bytes and not thorough:
             return verdict, 0, 0
         live = structure(obj)
+        live = tuple(restrict(live[k], self.base[k]) for k in (0, 1))
         via = (SAME, SAME)
         if not same_bytes and data is not None and self.bytes0 is not None:
             if self._loaded0 is None:
                 self._loaded0 = self._loaded(self.bytes0)
             got = self._loaded(data)
+            got = tuple(restrict(got[k], self._loaded0[k]) for k in (0, 1))
             via = tuple(SAME if got[k] == self._loaded0[k] else ('pickle-loads-to', got[k]) for k in (0, 1))
         elif (data is None) != (self.bytes0 is None):
             via = (('picklable', data is not None),) * 2
@@ -371,6 +390,12 @@ def _status_first(classify):
     return firsts
 
 
+def _with_nested(res):
+    """The result and the results it stores as attributes (the first test of a Bonferroni correction ...)."""
+    from valjean.gavroche.test import TestResult
+    return [res] + [v for _, v in sorted(vars(res).items()) if isinstance(v, TestResult)]
+
+
 def apply_op(res, kind, op, verb, origin='evaluate'):
     """Apply one read-only operation -- the whole family of calls the name stands for; returns the duplicate produced
     (copy / pickle / reeval) or None."""
@@ -385,7 +410,8 @@ def apply_op(res, kind, op, verb, origin='evaluate'):
         _ = not res
         res.__bool__()
     elif op == 'oracles':
-        read_members(res, RESULT_DENY, only=ORACLES)
+        for one in _with_nested(res):
+            read_members(one, RESULT_DENY, only=ORACLES)
     elif op == 'counts':
         from valjean.gavroche.diagnostics.stats import classification_counts
         classify = getattr(res, 'classify', None)
@@ -394,8 +420,9 @@ def apply_op(res, kind, op, verb, origin='evaluate'):
                 classification_counts(classify, first)
             for status in list(classify):
                 status in classify, classify.get(status), len(classify[status])      # pylint: disable=expression-not-assigned
-        read_members(res, RESULT_DENY | frozenset(ORACLES))
-        vars(res), repr(res), str(res), res == res, hash(res)      # pylint: disable=expression-not-assigned,comparison-with-itself
+        for one in _with_nested(res):
+            read_members(one, RESULT_DENY | frozenset(ORACLES))
+        vars(res), repr(res), str(res), res == res      # pylint: disable=expression-not-assigned,comparison-with-itself
     elif op == 'data':
         test = res.test
         b''.join(bytes(chunk) for chunk in test.data())
@@ -708,7 +735,8 @@ def run_c13(ctx):
              'seeded random sequences of 4-12 operations recorded and walked by TLC through ObserveTrace.tla.  distinct_nontrivial counts '
              'distinct (kind, origin, inputs, sequence) executions containing at least one representation followed by another operation.')
     ctx.assume('snapshot = verdict, every attribute the result stores (classifications as names of the non-empty classes), what its pickle '
-               'loads back to, test parameters, dataset bytes and fingerprint; 1-d datasets of 4 bins (2-d with an undefined cell in part of '
+               'loads back to, test parameters, dataset bytes and fingerprint; attributes ADDED to the result / its test by lazy caches after '
+               'the result was obtained are not part of it (DESIGN 8.1), a recorded attribute that is overwritten is; 1-d datasets of 4 bins (2-d with an undefined cell in part of '
                'the random sequences)')
     ctx.assume('an operation that raises is not a change of the result: it is reported as drift, not as a violation')
     wd = tlc.workdir('c13')
@@ -735,8 +763,10 @@ def run_c13(ctx):
     later.start('witkeys', IMPL, cfg, coverage=False)
     # spec -> code plans: (name, verbosities, length, origins, representations)
     plans = [('main', verbs_main, len_main, ['evaluate', 'direct'], VERB_OPS),
-             ('allverbs', list(range(6)), ctx.pick(1, 2), ORIGINS, VERB_OPS),
-             ('draw', ctx.pick([1, 4], list(range(6))), 1, ctx.pick(['evaluate'], ORIGINS), DRAW_OPS)]
+             ('allverbs', list(range(6)), ctx.pick(1, 2), ctx.pick(ORIGINS, ['evaluate', 'direct']), VERB_OPS)]
+    if not quick:
+        plans.append(('unpickled', verbs_main, 2, ['unpickled'], VERB_OPS))
+    plans.append(('draw', ctx.pick([1, 4], list(range(6))), 1, ctx.pick(['evaluate'], ORIGINS), DRAW_OPS))
     for name, verbs, maxlen, origins, verbops in plans:
         cfg = tlc.write_cfg(os.path.join(wd, name + '.cfg'), constants=_consts(verbs, maxlen, None, origins, verbops),
                             invariants=['Deterministic', 'VerdictIsTruth'], properties=['ReadOnly'], deadlock=False)
@@ -891,7 +921,6 @@ def _run_c13(ctx, wd, later, plans, simprefix, depth, nsim):
         ctx.drift('operation %s on a %s result raised %s' % (op, kind, text[:200]))
     for (kind, origin), text in sorted(runner.unbuildable.items()):
         ctx.drift('a %s result cannot be obtained the %r way by the harness: %s' % (kind, origin, text[:200]))
-    ctx.cov['skipped_in_band'] = runner.redundant
     ctx.cov['exhaustive'] = True
     ctx.cov['explanation'] = ('exhaustive for the operation sequences of the TLC configurations in tlc_runs; %d simulated behaviours of '
                               'depth %d; %d random sequences; %d traces walked by ObserveTrace, %d rejected; %d generated (kind, direct '
